@@ -16,13 +16,15 @@ RULE = ('cases = generated DSG spec x encoder x an operation history of 2-8 step
         'statistics, n_valid, fix, free, mutate the returned instance (design-variable / metric value, extra node), pickle '
         'round trip of the processor}; after EVERY step a probe set of vectors (all if <= 32, else 10) is decoded on the '
         'long-lived processor and on a freshly built processor on a freshly built graph with the same fixed values and '
-        'must give the same (x_corr, active, architecture); create=False must agree with create=True; consecutive decodes '
+        'must give the same (x_corr, active, architecture), and up to 12 probe vectors are additionally decoded each as '
+        'the FIRST decode of its own fresh processor (the probe sequence is a history too); create=False must agree with create=True; consecutive decodes '
         'must return distinct, unaffected objects; seed-independent core: all histories of length <= 3 over a 7-letter '
         'alphabet on 4 fixed specs; other-process part: the decode table of a spec is recomputed in child processes '
         'with PYTHONHASHSEED in {1, 2, 12345} and another node-id salt; one evaluation = one history step; non-trivial = '
         'history has a fix...free pair or an instance mutation followed by a decode; distinct by sha1(case)')
 BUDGET = {'quick': 24, 'thorough': 500}
 OPS = ['decode', 'decode', 'decode_nocreate', 'enumerate', 'stats', 'n_valid', 'fix', 'fix', 'free', 'mutate', 'pickle']
+N_SINGLE = 12
 ALPHABET = ['decode', 'decode_nocreate', 'enumerate', 'fix', 'free', 'mutate', 'pickle']
 
 
@@ -33,6 +35,11 @@ def _case(draw, tier):
         # two connection choices that are active together (caches keyed by earlier connection choices)
         spec = draw(specs.sel_spec(min_nodes=3, max_nodes=5, max_incompat=0, p_extra=False))
         spec = draw(specs.add_conns(spec, max_choices=2, min_choices=2, small=True, start_bias=6, allow_grp=False))
+    elif kind == 1:
+        # coupled choices: merged scenario with missing value combinations (imputation inside the scenario)
+        spec = draw(specs.coupled_spec())
+        if draw(st.booleans()):
+            spec = draw(specs.add_dvs(spec, max_dv=1))
     else:
         spec = draw(specs.full_spec(max_nodes=8, p_conn=0.2, p_dv=0.5, p_con=0.1, small_conn=True))
     if draw(st.integers(0, 2)) == 0:
@@ -64,7 +71,13 @@ def _fixed_specs():
     s3 = c13.con_spec('LINKED', 2, 3, 'perm')
     from .. import refsel
     s4 = dict(refsel.theory_example(), salt=0, conns=[], cons=[])
-    return [s1, s2, s3, s4]
+    # two coupled choices (one value pair excluded) and a dependent choice
+    s5 = {'salt': 0, 'nodes': {n: {'k': 'gen'} for n in ['n1', 'n2', 'n3', 'n11', 'n12', 'n21', 'n22', 'n31', 'n32', 'n33']},
+          'edges': [['n22', 'n3']], 'choices': [{'id': 'c1', 'origin': 'n1', 'opts': ['n11', 'n12']},
+                                                 {'id': 'c2', 'origin': 'n2', 'opts': ['n21', 'n22']},
+                                                 {'id': 'c3', 'origin': 'n3', 'opts': ['n31', 'n32', 'n33']}],
+          'incompat': [['n11', 'n21']], 'start': ['n1', 'n2'], 'conns': [], 'cons': []}
+    return [s1, s2, s3, s4, s5]
 
 
 def fixed_cases(tier):
@@ -182,6 +195,7 @@ def check_case(case):
     pending_mutation = False
     n_steps = 0
     d0 = {'enc': enc, 'history': case['ops']}
+    single_ref = {}
     for op, a, v in case['ops']:
         n_steps += 1
         free_idx = [i for i in range(len(all_vars)) if i not in fixed]
@@ -262,6 +276,31 @@ def check_case(case):
             continue
         t_live = _table(obs, gp, vectors)
         t_fresh = _table(fresh, fresh.gp, vectors)
+        # the probe decodes are a history themselves: a second reference decodes every probe vector on its OWN fresh
+        # processor (first decode of its life), cached per fixed-values configuration
+        fkey = tuple(sorted(fixed.items()))
+        if fkey not in single_ref:
+            step = max(1, len(vectors)//N_SINGLE)
+            idx = list(range(0, len(vectors), step))[:N_SINGLE]
+            ref = {}
+            for j in idx:
+                try:
+                    f1 = _fresh(spec, enc, {meta_all[i]['name']: vv for i, vv in fixed.items()})
+                    ref[j] = _table(f1, f1.gp, [vectors[j]])[0]
+                except Exception as e:  # noqa
+                    if exc_sig(e).endswith('@harness'):
+                        raise
+            single_ref[fkey] = ref
+        ref = single_ref[fkey]
+        bad = [j for j in sorted(ref) if t_fresh[j] != ref[j]]
+        if bad:
+            k = bad[0]
+            res.add(viol('history_dependent', f'fresh processor with fixed={ {meta_all[i]["name"]: vv for i, vv in fixed.items()} }'
+                                              f': x={vectors[k]} decodes to {ref[k][:2]} as the first decode and to '
+                                              f'{t_fresh[k][:2]} after decoding {vectors[:k]}',
+                         data=dict(d0, step=n_steps, op='probe_sequence', n_fixed=len(fixed),
+                                   differs_in='vector' if t_fresh[k][:2] != ref[k][:2] else 'architecture')))
+            break
         if t_live != t_fresh:
             k = [j for j in range(len(vectors)) if t_live[j] != t_fresh[j]][0]
             res.add(viol('history_dependent', f'after step {n_steps} ({op}) of {case["ops"][:n_steps]} with fixed='
